@@ -7,21 +7,29 @@ ALLKEYS = ["i0", "i1", "i2", "i3", "i4", "ib", "f25", "sa", "sb", "sl", "bt", "t
 ALIAS = {"f2": "i2", "fm0": "i0", "fb": "ib", "f3": "i3"}
 INTVAL = {"i0": 0, "i1": 1, "i2": 2, "i3": 3, "i4": 4, "ib": 1073741824}
 INTVAL.update({"n%d" % i: i for i in range(1, 41)})
+INTKEYS = set(INTVAL) | {"imin", "imax", "i53", "i53p"}        # keys that must be reported as integers
+FLOATKEYS = {"f25", "f63", "finf", "fninf", "ftiny"}              # keys that must stay floats
 
 
-def prelude(rng, big=False):
+def prelude(rng, big=False, names=None):
     sa = "".join(rng.choice("abcdefgh") for _ in range(rng.randint(1, 3)))
     sb = sa + rng.choice("xyz")
     sl = "".join(rng.choice("abcdefghijklmnop") for _ in range(40))
-    return ("BIGFAMILY = true\n" if big else "") + """local K = {i0 = 0, i1 = 1, i2 = 2, i3 = 3, i4 = 4, ib = 1073741824, f25 = 2.5, sa = "%s", sb = "%s", sl = "%s",
+    names_lua = "NAMES = {%s}\n" % ", ".join('"%s"' % k for k in names) if names else ""
+    return ("BIGFAMILY = true\n" if big else "") + names_lua + """local K = {i0 = 0, i1 = 1, i2 = 2, i3 = 3, i4 = 4, ib = 1073741824, f25 = 2.5, sa = "%s", sb = "%s", sl = "%s",
   bt = true, tk = {}, fk = function() end, f2 = 2.0, fm0 = -0.0, fb = 1073741824.0, f3 = 3.0}
 for i = 1, 40 do K["n" .. i] = i end
 do local stem = "%s" K.s7a, K.s7b = stem:sub(1, 6) .. "1", stem:sub(1, 6) .. "2" K.s8a, K.s8b = stem:sub(1, 7) .. "1", stem:sub(1, 7) .. "2"
    K.s9a, K.s9b = stem:sub(1, 8) .. "1", stem:sub(1, 8) .. "2" K.f1 = 1.0 end
+K.imin, K.imax, K.i53, K.i53p = math.mininteger, math.maxinteger, 1 << 53, (1 << 53) + 1
+K.f63, K.finf, K.fninf, K.ftiny = 2^63, math.huge, -math.huge, 5e-324
+K.fm63, K.fminf, K.fmaxf, K.f53, K.f53p = -(2^63), math.mininteger + 0.0, math.maxinteger + 0.0, 2^53, 9007199254740993.0
+do local function mkc() return function() end end K.ck1, K.ck2 = mkc(), mkc() end
 local V = {v1 = "one", v2 = "two"}
 local VN = {one = "v1", two = "v2"}
-local NAMES = {"i0", "i1", "i2", "i3", "i4", "ib", "f25", "sa", "sb", "sl", "bt", "tk", "fk", "s7a", "s7b", "s8a", "s8b", "s9a", "s9b"}
-if BIGFAMILY then NAMES = {"i0", "ib", "f25", "sa", "tk"} for i = 1, 40 do NAMES[#NAMES + 1] = "n" .. i end end
+local NAMES = NAMES or {"i0", "i1", "i2", "i3", "i4", "ib", "f25", "sa", "sb", "sl", "bt", "tk", "fk", "s7a", "s7b", "s8a", "s8b", "s9a", "s9b"}
+if BIGFAMILY and #NAMES < 30 then NAMES = {"i0", "ib", "f25", "sa", "tk"} for i = 1, 40 do NAMES[#NAMES + 1] = "n" .. i end end
+emit("cloeq", K.ck1 == K.ck2)
 local function nameof(key) for _, nm in ipairs(NAMES) do if rawequal(K[nm], key) then return nm end end return "?" end
 local function ty(k) return math.type(k) or type(k) end
 local STEP, SP = 0, "-"
@@ -52,8 +60,8 @@ end
 """ % (sa, sb, sl, sl[:8])
 
 
-def render(line, rng, spell):
-    out = [prelude(rng, big=any(x.startswith("n") and x[1:].isdigit() for x in spell))]
+def render(line, rng, spell, names=None):
+    out = [prelude(rng, big=any(x.startswith("n") and x[1:].isdigit() for x in spell), names=names)]
     for a in line["h"]:
         k, act, s = a["k"], a["a"], a["s"]
         if act == "set":
@@ -124,8 +132,10 @@ def check_line(line, o, spell, norm):
             elif sorted(names) != P:
                 return {"kind": "traversal", "detail": "visited %s, present were %s" % (sorted(names), P), "pol": a["pol"]}
             for e in vis:
-                if e[2] in INTVAL and e[3] != "integer":
+                if e[2] in INTKEYS and e[3] != "integer":
                     return {"kind": "key-normalisation", "detail": "integer-valued key reported as %s" % e[3]}
+                if e[2] in FLOATKEYS and e[3] != "float":
+                    return {"kind": "key-normalisation", "detail": "float key %s reported as %s" % (e[2], e[3])}
             te = [e for e in evs if e[0] == "travend" and e[1] == k]
             if len(te) != 1 or int(te[0][2]) != len(names):
                 return {"kind": "traversal", "detail": "travend %s" % te, "pol": a["pol"]}
@@ -142,27 +152,42 @@ def check_line(line, o, spell, norm):
     for e in fk:
         if e[3] != line["final"][e[1]]:
             return {"kind": "final-pairs", "detail": "pairs value for %s = %s, model %s" % (e[1], e[3], line["final"][e[1]])}
-        if e[1] in INTVAL and e[2] != "integer":
+        if e[1] in INTKEYS and e[2] != "integer":
             return {"kind": "key-normalisation", "detail": "integer-valued key reported as %s" % e[2]}
+        if e[1] in FLOATKEYS and e[2] != "float":
+            return {"kind": "key-normalisation", "detail": "float key %s reported as %s" % (e[1], e[2])}
     eb = [e for e in evs if e[0] == "eqbad"]
     if len(eb) != 1 or int(eb[0][1]) != 0:
         return {"kind": "value-equality", "detail": "%s pairs of distinct keys compare equal (or equal keys compare different)" % (eb[0][1] if eb else "?")}
     fl = [e for e in evs if e[0] == "flen"]
-    if len(fl) != 1 or int(fl[0][1]) not in line["borders"]:
+    if "imax" in spell:
+        pass        # borders of tables with keys next to maxinteger are not enumerated by the spec (LenEnabled = FALSE)
+    elif len(fl) != 1 or int(fl[0][1]) not in line["borders"]:
         return {"kind": "border", "detail": "final #t = %s, borders are %s" % (fl, line["borders"])}
     return None
 
 
 CONFIGS = {
-    "quick": [("TableIntQ.cfg", None, 2), ("TableMixQ.cfg", None, 2), ("TableStrQ.cfg", None, 1), ("TableSim.cfg", "num=300", 1), ("TableBigSim.cfg", "num=80", 1)],
-    "thorough": [("TableIntT.cfg", None, 3), ("TableMixT.cfg", None, 3), ("TableStrQ.cfg", None, 3), ("TableSim.cfg", "num=6000", 2), ("TableBigSim.cfg", "num=3000", 2)],
+    "quick": [("TableIntQ.cfg", None, 2), ("TableMixQ.cfg", None, 2), ("TableStrQ.cfg", None, 1), ("TableSim.cfg", "num=300", 1), ("TableBigSim.cfg", "num=80", 1),
+              ("TableExtQ.cfg", None, 1), ("TableExtSim.cfg", "num=150", 1), ("TableCloEqQ.cfg", None, 1), ("TableCloNeQ.cfg", None, 1),
+              ("TableBigCloEqSim.cfg", "num=40", 1), ("TableBigCloNeSim.cfg", "num=40", 1)],
+    "thorough": [("TableIntT.cfg", None, 3), ("TableMixT.cfg", None, 3), ("TableStrQ.cfg", None, 3), ("TableSim.cfg", "num=6000", 2), ("TableBigSim.cfg", "num=3000", 2),
+                 ("TableExtQ.cfg", None, 2), ("TableExtSim.cfg", "num=3000", 1), ("TableCloEqQ.cfg", None, 2), ("TableCloNeQ.cfg", None, 2),
+                 ("TableBigCloEqSim.cfg", "num=1000", 1), ("TableBigCloNeSim.cfg", "num=1000", 1)],
 }
 
+NEWFAMS = {"Ext", "CloEq", "CloNe", "BigCloEq", "BigCloNe"}
 FAM = {"Int": (["i0", "i1", "i2", "i3", "i4", "ib"], {"f2": "i2", "fm0": "i0", "fb": "ib"}),
        "Mix": (["i1", "i2", "f25", "sa", "sl", "bt", "tk", "fk"], {"f2": "i2"}),
        "All": (ALLKEYS, ALIAS),
        "Str": (["s7a", "s7b", "s8a", "s8b", "s9a", "s9b", "sa", "i1"], {"f1": "i1"}),
-       "Big": (["n%d" % i for i in range(1, 41)] + ["i0", "ib", "f25", "sa", "tk"], {"f2": "n2", "fm0": "i0", "fb": "ib", "f3": "n3"})}
+       "Big": (["n%d" % i for i in range(1, 41)] + ["i0", "ib", "f25", "sa", "tk"], {"f2": "n2", "fm0": "i0", "fb": "ib", "f3": "n3"}),
+       "Ext": (["i0", "i1", "imin", "imax", "i53", "i53p", "f63", "finf", "fninf", "f25", "ftiny", "sa"],
+               {"fm0": "i0", "f1": "i1", "fm63": "imin", "fminf": "imin", "fmaxf": "f63", "f53": "i53", "f53p": "i53"}),
+       "CloEq": (["ck1", "i1", "sa", "tk"], {"ck2": "ck1", "f1": "i1"}),
+       "CloNe": (["ck1", "ck2", "i1", "sa", "tk"], {"f1": "i1"}),
+       "BigCloEq": (["n%d" % i for i in range(1, 41)] + ["i0", "ib", "f25", "sa", "tk", "ck1"], {"f2": "n2", "fm0": "i0", "fb": "ib", "f3": "n3", "ck2": "ck1"}),
+       "BigCloNe": (["n%d" % i for i in range(1, 41)] + ["i0", "ib", "f25", "sa", "tk", "ck1", "ck2"], {"f2": "n2", "fm0": "i0", "fb": "ib", "f3": "n3"})}
 
 
 def run(prop, tier):
@@ -180,16 +205,22 @@ def run(prop, tier):
         norm = lambda s, alias=alias: alias.get(s, s)
         state = {"n": 0, "bad": 0}
 
-        def process(lines):
+        def process(lines, fam=fam, keys=keys):
             if sim:
                 lines = [l for l in lines if len(l["h"]) == ms]
             cases, meta = [], []
             for l in lines:
                 for j in range(ninst):
-                    cases.append({"id": len(cases), "src": render(l, rng, spell), "timeout": 8000})
+                    cases.append({"id": len(cases), "src": render(l, rng, spell, names=keys if fam in NEWFAMS else None), "timeout": 8000})
                     meta.append(l)
             outs = run_lua_cases(drv, cases)
             for i, l in enumerate(meta):
+                if fam.endswith("CloEq") or fam.endswith("CloNe"):
+                    # keep the variant of the model that matches what `ck1 == ck2` evaluates to (left open by the manual)
+                    pe = [e for e in outs[i].get("events", []) if e and sval(e[0]) == "cloeq"]
+                    if pe and (pe[0][1] is True) != fam.endswith("CloEq"):
+                        cov["closure_variant_not_applicable"] = cov.get("closure_variant_not_applicable", 0) + 1
+                        continue
                 state["n"] += 1
                 cov["traces_validated_against_impl"] += 1
                 for a in l["h"][-1:] if not sim else l["h"]:
@@ -201,6 +232,8 @@ def run(prop, tier):
                 if why:
                     state["bad"] += 1
                     sig = {"kind": why["kind"], "tag": why.get("tag", ""), "pol": why.get("pol", ""), "key": why.get("key", "")}
+                    if fam in NEWFAMS:
+                        sig["fam"] = fam
                     rep.violation(sig, {"cmd": "lua-run", "src": cases[i]["src"], "history": l["h"], "model_final": l["final"],
                                         "observed": outs[i], "why": why})
                 elif len(l["h"]) >= 4:
